@@ -53,7 +53,8 @@ static void *parse_null(spif_charptr_t, void *);
 static ctx_t *context;
 static ctx_state_t *ctx_state;
 static spifconf_func_t *builtins;
-static unsigned char ctx_cnt, ctx_idx, ctx_state_idx, ctx_state_cnt, fstate_cnt, builtin_cnt, builtin_idx;
+static unsigned char ctx_idx, ctx_state_idx, builtin_idx;
+static unsigned int ctx_cnt, ctx_state_cnt, fstate_cnt, builtin_cnt;
 static spifconf_var_t *spifconf_vars = NULL;
 
 const char *true_vals[] = { "1", "on", "true", "yes" };
